@@ -115,4 +115,10 @@ theorem stage_forms_unbatched_ok :
     Gen.C08.stage_forms_supervised.unbatchedOk && Gen.C08.stage_forms_outer.unbatchedOk
       && Gen.C08.stage_forms_pre.unbatchedOk = true := by decide
 
+/-- **no transform class of `mri_transforms.py` / `ssl.py` writes instance, class or module state after construction**
+(assignments to `self.…`, mutating calls on `self.…`, `global`, `setattr`, memoising decorators — in any method but
+`__init__`): a cache of a threshold, a scaling factor or a mask on the transform object changes the generated table -/
+theorem instance_state_writes_none : Gen.C08.instance_state_writes.none = true := by decide
+theorem classes_scanned_pos : 30 ≤ Gen.C08.classes_scanned := by decide
+
 end DirectVerif.Bridge.C08
